@@ -230,6 +230,9 @@ def result_numbers(run: GameRun) -> Optional[List[Any]]:
 # ---------------------------------------------------------------------------------------------------------------------
 
 
+ZERO_TEST_BUDGET_S = 4.0  # per zero test; on the pinned tree the slowest one takes well under a second
+
+
 def expand_sums(p: Poly, limit: int = 60) -> Optional[Poly]:
     """Sum atoms with a positive integer exponent multiplied out (sqrt(S) * sqrt(S) is S, not an opaque atom)."""
     for _ in range(limit):
@@ -268,8 +271,12 @@ def clear_denominators(p: Poly, limit: int = 80) -> Optional[Poly]:
     roots): S^e is split into S^floor(e), multiplied out, and S^(e - floor(e)). p == 0 as a function of the atoms iff the result is
     the zero polynomial in the atoms and these fractional powers."""
     import math as _m
+    import time as _t
 
+    t_end = _t.monotonic() + ZERO_TEST_BUDGET_S
     for _ in range(limit):
+        if _t.monotonic() > t_end:
+            return None  # budget exhausted: the caller reports "could not be normalised" (undecided), never a verdict
         p = expand_sums(p)
         if p is None:
             return None
@@ -304,7 +311,7 @@ def clear_denominators(p: Poly, limit: int = 80) -> Optional[Poly]:
                 term = p_mul(term, sum_poly)
             out = p_add(out, term)
         p = out
-        if len(p) > 60000:
+        if len(p) > 30000:
             return None
     return None
 
@@ -841,16 +848,26 @@ class _CachedJob:
         return _cached(self.fn, job, self.digest)
 
 
-def add_instances(rep, job_fn, jobs, rule: str, floor: int) -> None:
-    """Run the explicit-game jobs on the process pool and add their instances to the report."""
+def add_instances(rep, job_fn, jobs, rule: str, floor: int, counterpart_only: bool = False) -> None:
+    """Run the explicit-game jobs on the process pool and add their instances to the report. `counterpart_only`: the rule belongs
+    to another property (the closed forms of C01 / C12) and serves this check only as the exact small-game counterpart of its
+    structural rules: an instance that does not hold is recorded as assumed-not-used (it is that other check's finding, and it
+    disables the arbitration, which needs every instance to hold); no instance floor applies."""
     from ..report import Instance
     from .harness import parallel_map
 
     digest = rep.extra.get("repo_digest") or Program().digest()
     for lst in parallel_map(_CachedJob(job_fn, digest), jobs):
         for d in lst:
-            rep.add(Instance(d["rule"], d["verdict"], d["module"], d["function"], d["construct"], d["line"], d.get("message", ""), d.get("detail", {})))
-    rep.floor(rule, floor)
+            verdict, message = d["verdict"], d.get("message", "")
+            if counterpart_only and verdict != "HOLDS":
+                message = f"[counterpart rule of another property ({verdict.lower()} there): not used to arbitrate here] " + message
+                verdict = "ASSUMED"
+            rep.add(Instance(d["rule"], verdict, d["module"], d["function"], d["construct"], d["line"], message, d.get("detail", {})))
+    if not counterpart_only:
+        rep.floor(rule, floor)
+    else:
+        rep.__dict__.setdefault("counterpart_min", {})[rule] = floor  # fewer holding instances than this: no arbitration
     rep.trust("explicit small games (osv/rules/game.py): every team, player and rank value its own abstract object, one assumed weak ordering of the rank values per run; "
               "polynomial normal form with denominators cleared (osv/poly.py), f(z) + f(-z) = 1 for the logistic shape and the Gaussian CDF role")
 
